@@ -1,4 +1,5 @@
 #include "statement_parser.h"
+#include "../../../common/stack_guard.h"
 #include "../recursive_lexer.h"
 #include "../recursive_parser.h"
 #include "declaration_parser.h" // v0.13.0: FFI用
@@ -30,6 +31,9 @@ StatementParser::StatementParser(RecursiveParser *parser) : parser_(parser) {}
  * トークンの種類に応じて適切な解析メソッドを呼び出します
  */
 ASTNode *StatementParser::parseStatement() {
+    // blocks and control statements nest through here
+    StackGuard::check();
+
     // export修飾子のチェック（最初にチェック）
     bool isExported = false;
     bool isDefaultExport = false;
